@@ -155,6 +155,12 @@ def run_call(ns, spec):
 
 def V(rnd, kind=None):
     rs = np.random.RandomState(rnd.randrange(2 ** 31))
+    r = rnd.random()
+    if r < 0.15:
+        return {'$nd': np.zeros((3, 3)).tolist()}        # a fixed station: exactly zero covariance
+    if r < 0.25:
+        u = rs.randn(3, 1)
+        return {'$nd': (u @ u.T * 1e-4).tolist()}
     A = rs.randn(3, 3)
     M = A @ A.T * 1e-4
     return {'$nd': ((M + M.T) / 2).tolist()}
@@ -177,9 +183,18 @@ def gen_pool(ns, rnd, size):
         return round(rnd.uniform(-179, 179), rnd.choice([4, 8, 11]))
 
     def xyz():
+        if rnd.random() < 0.6:
+            return list(rnd.choice(POINTS))
         return [rnd.uniform(-5e6, -3e6), rnd.uniform(2e6, 5e6), rnd.uniform(-4.5e6, -1e6)]
 
+    DATES = ['2018-01-01', '2020-01-01', '2031-07-01', '%04d-%02d-%02d' % (rnd.randint(1990, 2040), rnd.randint(1, 12), rnd.randint(1, 28))]
+    POINTS = [[-4052051.767, 4212836.215, -2545106.027], [-3753473.196, 3912741.029, -3347959.698],
+              [rnd.uniform(-5e6, -3e6), rnd.uniform(2e6, 5e6), rnd.uniform(-4.5e6, -1e6)]]
+
     def date():
+        # few distinct dates: different sets meet at the same epoch, the same set at different epochs
+        if rnd.random() < 0.7:
+            return {'$date': rnd.choice(DATES)}
         return {'$date': '%04d-%02d-%02d' % (rnd.randint(1990, 2040), rnd.randint(1, 12), rnd.randint(1, 28))}
 
     def ell():
@@ -269,6 +284,22 @@ def gen_pool(ns, rnd, size):
     # every generator at least once, then random
     for g in gens:
         pool.append(g())
+    # constants that share direction labels and reference epoch, at the same dates and the same point
+    groups = {}
+    for k in dated:
+        t = getattr(C, k)
+        groups.setdefault((str(t.from_datum), str(t.to_datum), str(t.ref_epoch)), []).append(k)
+    for g in [g for g in groups.values() if len(g) > 1]:
+        for k in g:
+            for d in DATES[:2]:
+                pool.append({'fn': 'transform.conform14', 'args': list(POINTS[0]) + [{'$date': d}, {'$trans': k}]})
+                pool.append({'fn': 'op:add', 'args': [{'$trans': k}, {'$date': d}]})
+    # the same ellipsoid constants through ellipsoids that agree in 1/f but not in a, and the same call on two ellipsoids
+    for e in (['grs80'], [[6378135.0, 298.257222101]], ['ans'], [[6378145.0, 298.25]]):
+        pool.append({'fn': 'convert.geo2grid', 'args': [-33.25, 151.5, 0, {'$ell': e[0]}]})
+        pool.append({'fn': 'convert.grid2geo', 'args': [56, 350000.0, 6300000.0, 'south', {'$ell': e[0]}]})
+        pool.append({'fn': 'convert.llh2xyz', 'args': [-33.25, 151.5, 100.0, {'$ell': e[0]}]})
+        pool.append({'fn': 'geodesy.vincdir', 'args': [-33.25, 151.5, 45.0, 250000.0, {'$ell': e[0]}]})
     while len(pool) < size:
         pool.append(rnd.choice(gens)())
     return pool[:max(size, len(gens))]
